@@ -178,8 +178,8 @@ META = {
     'explanation': "C15: (CrossHair) TableValidator._validate_json on a document whose declared shape and sparse coordinates are unbounded symbolic "
                    "ints, under each of 45 single structural mutations (delete / rename required keys, empty / missing / duplicated ids, non-object metadata, "
                    "row/column count vs shape, malformed / mistyped coordinates and values, element / matrix type swaps, corrupt date / format / url / type): "
-                   "valid(doc) ==> P(doc) with P written from the property statement; and P(doc) ==> valid(doc) on the unmutated skeleton. (SX) every JSON "
-                   "document / HDF5 store the real writers emit (all 7 vocabulary types, all representation states, all-zero tables) is accepted, and an "
+                   "valid(doc) ==> P(doc) with P written from the property statement; and P(doc) ==> valid(doc) on the unmutated skeleton; the same implication with 0..2 ids per axis (empty axes). (SX) every JSON "
+                   "document / HDF5 store the real writers emit (all 7 vocabulary types, all representation states, all-zero tables, tables that came out of from_json / parse_biom_table / from_hdf5; through _validate_hdf5 and through the command entry _validate_table with file sniffing / opening stubbed) is accepted, and an "
                    "accepted numeric document loads through the real from_json to the declared shape, ids and values (solver); hand-made dense documents; the HDF5 "
                    "validator under deletion of each required attribute / group / dataset and shape / attribute corruption.",
     'encoded': {'biom/cli/table_validator.py': ['_validate_json', '_validate_hdf5', '_valid_sparse_data', '_valid_dense_data', '_valid_rows',
